@@ -48,6 +48,7 @@ def build_inputs(ctx, case, env):
     raw = case.get('normalization', 'log2CPM') == 'raw'
     genes = [f"g{i}" for i in range(ng)]
     paths, names, rows, label = [], {}, {}, {}
+    file_genes = {}
     k = 0
     for fi in range(nfiles):
         p = env.path(f"ref{fi}.h5ad")
@@ -58,13 +59,20 @@ def build_inputs(ctx, case, env):
         write_h5ad_x(env, p, dense, enc)
         paths.append(p)
         names[p] = nm
+        # var table of this file (the column order may differ)
+        if fi > 0 and case.get('perm_genes'):
+            file_genes[p] = [genes[j] for j in ctx.perm(f"gene_order[{fi}]",
+                                                        ng)]
+        else:
+            file_genes[p] = list(genes)
         for i in range(ncell):
             rows[nm[i]] = dense[i]
             c = ctx.choice(f"label[{fi},{i}]", ncl + 1)
             label[nm[i]] = None if c == ncl else CLUSTERS[c]
         k += ncell
     return {'paths': paths, 'names': names, 'rows': rows, 'label': label,
-            'genes': genes, 'clusters': CLUSTERS[:ncl], 'raw': raw}
+            'genes': genes, 'clusters': CLUSTERS[:ncl], 'raw': raw,
+            'file_genes': file_genes}
 
 
 def install_readers(inp):
@@ -73,7 +81,7 @@ def install_readers(inp):
         if df_name == 'obs':
             return FakeDF(list(inp['names'][path]))
         if df_name == 'var':
-            return FakeDF(list(inp['genes']))
+            return FakeDF(list(inp['file_genes'][path]))
         raise core.ShimGap(f"read_df_from_h5ad {df_name}")
     patch(PFA, 'read_df_from_h5ad', rd)
 
